@@ -13,6 +13,10 @@ import vlib, proto
 def run(c):
     thorough = c.tier == 'thorough'
     proto.run_suite(c, 'C11', only=['LSProtocol_shadow_f3.cfg', 'LSProtocol_shadow_design.cfg', 'LSProtocol_shadow.cfg', 'LSProtocol_sim_shadow.cfg'])
+    # option receive-only: the capture of the application's changes still happens (LSLoop with ReceiveOnly; the model
+    # is checked exhaustively under C03), replayed on the real loop
+    import loopx
+    loopx.run_extra(c, 'C11', 'recvonly', exhaustive=False)
     # the model of the code as it is must violate MirrorFaithful; replay TLC's counterexample on the code
     r = vlib.tlc('LSProtocol', 'LSProtocol_shadow_f3_mirror.cfg', workers=1, timeout=600, keep=True)
     if r.violation == 'MirrorFaithful':
